@@ -17,7 +17,7 @@ TEXT = {
         "technique": "Verus safety obligations on extracted decoder bodies + Kani complete/bounded harnesses",
         "design_ref": "DESIGN.md §4 C01",
         "level_text": "Every overflow/underflow, index, slice-range, unwrap and loop-termination obligation that Verus generates for the real bodies of the TRG, ADC, chunk and PWB decoders and the id conversions is discharged for all inputs (no bound); TRG additionally by a complete Kani proof over all 80-byte slices.",
-        "level_note": _COMMON_NOTE + " Iterator chains lifted to external_body leaves are assumed panic-free under their stated preconditions (cross-checked by Kani harnesses, bounded where stated). String parsers and the Chronobox combinator parser are outside Verus.",
+        "level_note": _COMMON_NOTE + " Most iterator chains of the decoders are rewritten into the index loops that define them and verified (rules R13-R18); the few that remain lifted to external_body leaves (mask assembly, concat, sort, table look-ups) are assumed panic-free under their stated preconditions (cross-checked by Kani harnesses, bounded where stated). String parsers and the Chronobox combinator parser are outside Verus.",
     },
     "C02": {
         "technique": "Verus postcondition accept <=> adc_ok(bytes) and field equalities on the extracted AdcV3Packet::try_from",
@@ -53,13 +53,13 @@ TEXT = {
         "technique": "complete Kani proofs over all ids / MACs / 4-byte names + Verus contracts on id conversions, run-number selectors and wire/pad-column arithmetic; native enumeration of table bijections",
         "design_ref": "DESIGN.md §4 C08",
         "level_text": "Name grammar (thorough tier: all 2^32 4-byte strings per parser), board tables (all MACs, all device ids), readout-index map (all u16, injective), run-number selection (every u32: simulation maps like run 5000, runs before the first map give an error) and the index arithmetic to wires (<256) and pads are proved.",
-        "level_note": _COMMON_NOTE + " The contents of the lazy_static HashMaps are opaque tables (A-MAPS): the 256-wire and 18432-pad bijections are enumerated natively at six run numbers, not proved. Bank-name harnesses run in the thorough tier only (minutes each).",
+        "level_note": _COMMON_NOTE + " The contents of the lazy_static HashMaps are opaque tables (A-MAPS): the 256-wire and 18432-pad bijections are enumerated natively at six run numbers, not proved. The name harnesses for ADC16 / ADC32 / fixed names run in the quick tier (about 75 s together); the PadWing and main-event name harnesses need more than 45 GB / 55 min here and are not registered in any tier (c08_names covers them bounded).",
     },
     "C09": {
-        "technique": "Verus safety obligations on extracted index/selector functions + complete Kani proofs of the extracted calibration closures",
+        "technique": "Verus safety obligations on the extracted index/selector functions and on the four arms of try_from_banks + complete Kani proofs of the extracted calibration closures",
         "design_ref": "DESIGN.md §4 C09",
-        "level_text": "Only the integer and Option panic sites of event assembly are decided: both calibration closures (cut out of try_from_banks; all i16 samples and baselines), contiguous_ranges / range_to_len / wire<->pad-column functions, TpcWirePosition::try_new (unreachable!() unreachable, index < 256), TpcPadPosition::new (unwraps), and -- as postconditions of the decoders -- the invariants behind board_id().unwrap() and waveform_at().unwrap().",
-        "level_note": _COMMON_NOTE + " Bounded stand-in: c09_event feeds ~480 extreme-but-valid events (waveform lengths around the calibration delay, i16 extremes, full ring, sent/over-threshold masks that differ) through try_from_banks, avalanches and vertex. NOT decided by proof: the floating-point pipeline (deconvolution, clustering, fitting, vertexing) and the generic, HashMap-using body of try_from_banks itself; the call sites of the unwraps are not verified, only the callee-side invariants.",
+        "level_text": "Only the integer and Option panic sites of event assembly are decided: both calibration closures (cut out of try_from_banks; all i16 samples and baselines), contiguous_ranges / range_to_len / wire<->pad-column functions, TpcWirePosition::try_new (unreachable!() unreachable, index < 256), TpcPadPosition::new (unwraps), and the arms of try_from_banks themselves (units evtwire, evtpad, evtchunk, evttrg): board_id().unwrap() and waveform_at(..).unwrap() are discharged at their call sites from the decoders' proved invariants, the slot indexings wire_signals[i] and pad_signals[c][r] from the proved ranges of the maps.",
+        "level_note": _COMMON_NOTE + " Bounded stand-in: c09_event feeds ~480 extreme-but-valid events (waveform lengths around the calibration delay, i16 extremes, full ring, sent/over-threshold masks that differ) through try_from_banks, avalanches and vertex. NOT decided by proof: the floating-point pipeline (deconvolution, clustering, fitting, vertexing) and the loops of try_from_banks that drive the arms (generic iterator, HashMap).",
     },
     "C10": {
         "technique": "Verus contracts on the four match arms (and the final timestamp expression) cut out of MainEvent::try_from_banks, checked against the proved contracts of the decoders and maps; complete Kani proofs of the two calibration expressions; bounded native table of rejections",
